@@ -12,15 +12,39 @@ package filesys
 
 //@ ghost var held_w map[Int]bool
 //@ ghost var held_r map[Int]bool
+// didunlock: this operation has already released the lock once. Lock requires that it has not:
+// every operation is ONE critical section (the single-mutex reduction to linearizability needs that).
+//@ ghost var didunlock map[Int]bool scratch
 
 //@ assume func (*sync.Mutex).Lock (m)
 //@   requires !held_w[ref(m)]
-//@   modifies held_w
+//@   requires [one critical section per operation] !didunlock[ref(m)]
+//@   modifies held_w, didunlock
 //@   ensures held_w == old(held_w)[ref(m) := true]
 //@ assume func (*sync.Mutex).Unlock (m)
 //@   requires held_w[ref(m)]
+//@   modifies held_w, didunlock
+//@   ensures held_w == old(held_w)[ref(m) := false] && didunlock == old(didunlock)[ref(m) := true]
+
+// the same protocol for a reader-writer lock (should MemFs ever use one)
+//@ assume func (*sync.RWMutex).Lock (rw)
+//@   requires !held_w[ref(rw)] && !held_r[ref(rw)]
+//@   requires [one critical section per operation] !didunlock[ref(rw)]
 //@   modifies held_w
-//@   ensures held_w == old(held_w)[ref(m) := false]
+//@   ensures held_w == old(held_w)[ref(rw) := true]
+//@ assume func (*sync.RWMutex).Unlock (rw)
+//@   requires held_w[ref(rw)]
+//@   modifies held_w, didunlock
+//@   ensures held_w == old(held_w)[ref(rw) := false] && didunlock == old(didunlock)[ref(rw) := true]
+//@ assume func (*sync.RWMutex).RLock (rw)
+//@   requires !held_w[ref(rw)] && !held_r[ref(rw)]
+//@   requires [one critical section per operation] !didunlock[ref(rw)]
+//@   modifies held_r
+//@   ensures held_r == old(held_r)[ref(rw) := true]
+//@ assume func (*sync.RWMutex).RUnlock (rw)
+//@   requires held_r[ref(rw)]
+//@   modifies held_r, didunlock
+//@   ensures held_r == old(held_r)[ref(rw) := false] && didunlock == old(didunlock)[ref(rw) := true]
 
 //@ ghost func simple(name string) bool
 //@ assume func path.Clean (p)
@@ -41,7 +65,7 @@ package filesys
 // caller memory is never file storage
 //@ ghost func noalias(fs *MemFs, x []byte) bool = forall i int :: has(fs.inodes, i) ==> fs.inodes[i].arr != x.arr
 // lock protocol: free at entry
-//@ ghost func unlocked(fs *MemFs) bool = !held_w[&fs.m]
+//@ ghost func unlocked(fs *MemFs) bool = !held_w[&fs.m] && !held_r[&fs.m] && !didunlock[&fs.m]
 
 //@ props C12 C14
 
@@ -55,7 +79,7 @@ package filesys
 //@   ensures [directory exists afterwards] isdir(fs, dir)
 //@   ensures [other directories unchanged] forall d string :: d != dir ==> has(fs.validDirs, d) == old(has(fs.validDirs, d)) && fs.validDirs[d] == old(fs.validDirs[d])
 //@   ensures [invariant, lock released] rinv(fs) && held_w == old(held_w)
-//@   modifies map(fs.validDirs), held_w
+//@   modifies map(fs.validDirs), held_w, didunlock
 
 //@ func (*MemFs).Create
 //@   requires rinv(fs) && unlocked(fs)
@@ -70,7 +94,7 @@ package filesys
 //@   ensures [all other inodes unchanged] forall i int :: old(has(fs.inodes, i)) ==> has(fs.inodes, i) && fs.inodes[i] == old(fs.inodes[i])
 //@   ensures [all other descriptors unchanged] forall i int :: old(has(fs.openFiles, i)) ==> has(fs.openFiles, i) && fs.openFiles[i] == old(fs.openFiles[i])
 //@   ensures [invariant, lock released] rinv(fs) && held_w == old(held_w)
-//@   modifies map(fs.dirents), map(fs.inodes), map(fs.openFiles), held_w
+//@   modifies map(fs.dirents), map(fs.inodes), map(fs.openFiles), held_w, didunlock
 
 //@ func (*MemFs).Append
 //@   requires rinv(fs) && unlocked(fs) && noalias(fs, data)
@@ -84,7 +108,7 @@ package filesys
 //@   ensures [same inodes, others untouched] forall i int :: has(fs.inodes, i) == old(has(fs.inodes, i)) && (i != int(f) ==> fs.inodes[i] == old(fs.inodes[i]))
 //@   ensures [data is not retained] noalias(fs, data)
 //@   ensures [invariant, lock released] rinv(fs) && held_w == old(held_w)
-//@   modifies map(fs.inodes), elems(fs.inodes[int(f)], len(fs.inodes[int(f)]), cap(fs.inodes[int(f)])), held_w
+//@   modifies map(fs.inodes), elems(fs.inodes[int(f)], len(fs.inodes[int(f)]), cap(fs.inodes[int(f)])), held_w, didunlock
 
 //@ func (*MemFs).Close
 //@   requires rinv(fs) && unlocked(fs)
@@ -93,7 +117,7 @@ package filesys
 //@   on_panic [nothing changed, lock released] unchanged()
 //@   ensures [descriptor removed, all others untouched] forall i int :: has(fs.openFiles, i) == (old(has(fs.openFiles, i)) && i != int(f)) && (i != int(f) ==> fs.openFiles[i] == old(fs.openFiles[i]))
 //@   ensures [invariant, lock released] rinv(fs) && held_w == old(held_w)
-//@   modifies map(fs.openFiles), held_w
+//@   modifies map(fs.openFiles), held_w, didunlock
 
 //@ func (*MemFs).Open
 //@   requires rinv(fs) && unlocked(fs) && simple(fname)
@@ -104,7 +128,7 @@ package filesys
 //@   ensures [independent descriptor: not open before] !old(has(fs.openFiles, int(result)))
 //@   ensures [other descriptors untouched] forall i int :: i != int(result) ==> has(fs.openFiles, i) == old(has(fs.openFiles, i)) && fs.openFiles[i] == old(fs.openFiles[i])
 //@   ensures [invariant, lock released] rinv(fs) && held_w == old(held_w)
-//@   modifies map(fs.openFiles), held_w
+//@   modifies map(fs.openFiles), held_w, didunlock
 
 //@ func (*MemFs).ReadAt
 //@   requires rinv(fs) && unlocked(fs)
@@ -116,14 +140,14 @@ package filesys
 //@   ensures [contents] forall i uint64 :: i < uint64(len(result)) ==> result[i] == old(fs.inodes[int(f)][offset + i])
 //@   ensures [result is fresh storage] len(result) == 0 || fresh(result)
 //@   ensures [lock released] held_w == old(held_w)
-//@   modifies held_w
+//@   modifies held_w, didunlock
 
 //@ func (*MemFs).Delete
 //@   requires rinv(fs) && unlocked(fs)
 //@   lock &fs.m
 //@   ensures [name removed, every other name untouched] forall q pathname :: has(fs.dirents, q) == (old(has(fs.dirents, q)) && q != mkp(dir, fname)) && (q != mkp(dir, fname) ==> fs.dirents[q] == old(fs.dirents[q]))
 //@   ensures [invariant, lock released] rinv(fs) && held_w == old(held_w)
-//@   modifies map(fs.dirents), held_w
+//@   modifies map(fs.dirents), held_w, didunlock
 
 //@ props C12 C13 C14
 //@ func (*MemFs).AtomicCreate
@@ -137,7 +161,7 @@ package filesys
 //@   ensures [all other names unchanged] forall q pathname :: q != mkp(dir, fname) ==> has(fs.dirents, q) == old(has(fs.dirents, q)) && fs.dirents[q] == old(fs.dirents[q])
 //@   ensures [all other inodes unchanged, old inode still readable] forall i int :: old(has(fs.inodes, i)) ==> has(fs.inodes, i) && fs.inodes[i] == old(fs.inodes[i])
 //@   ensures [invariant, lock released] rinv(fs) && held_w == old(held_w)
-//@   modifies map(fs.dirents), map(fs.inodes), held_w
+//@   modifies map(fs.dirents), map(fs.inodes), held_w, didunlock
 
 //@ props C12 C14
 //@ func (*MemFs).Link
@@ -149,7 +173,7 @@ package filesys
 //@   ensures [otherwise both names share the inode] !old(has(fs.dirents, mkp(newDir, newName))) ==> result && has(fs.dirents, mkp(newDir, newName)) && fs.dirents[mkp(newDir, newName)] == old(fs.dirents[mkp(oldDir, oldName)])
 //@   ensures [all other names unchanged] forall q pathname :: q != mkp(newDir, newName) ==> has(fs.dirents, q) == old(has(fs.dirents, q)) && fs.dirents[q] == old(fs.dirents[q])
 //@   ensures [invariant, lock released] rinv(fs) && held_w == old(held_w)
-//@   modifies map(fs.dirents), held_w
+//@   modifies map(fs.dirents), held_w, didunlock
 
 //@ func (*MemFs).List
 //@   requires rinv(fs) && unlocked(fs)
@@ -159,7 +183,7 @@ package filesys
 //@   ensures [every returned name is a file of the directory] forall j int :: 0 <= j && j < len(result) ==> has(fs.dirents, mkp(dir, result[j]))
 //@   ensures [every file of the directory is returned] forall q pathname :: has(fs.dirents, q) && q.dir == dir ==> exists i int :: result.off <= i && i < result.off + len(result) && elemat(result, i) == q.name
 //@   ensures [file system unchanged, lock released] held_w == old(held_w)
-//@   modifies held_w
+//@   modifies held_w, didunlock
 //@   loop 1 invariant [sound] forall j int :: 0 <= j && j < len(names) ==> has(fs.dirents, mkp(dir, names[j]))
 //@   loop 1 invariant [complete so far] forall q pathname :: has(fs.dirents, q) && q.dir == dir && !todo[q] ==> exists i int :: names.off <= i && i < names.off + len(names) && elemat(names, i) == q.name
 //@   loop 1 invariant [names is private storage] names.arr == 0 || fresh(names)
